@@ -247,8 +247,11 @@ class Hist:
             self.back(self.rng.choice([b"[]", b"{}", b"hello", b"[1]", b'{"jsonrpc":"2.0"}', b"", b"  ", b'[{"id":null,"result":1}]',
                                        b'[{"id":18446744073709551615,"result":1}]', b'[{"id":"x","result":1}]', b'{"id":1.5,"result":1}']),
                       what="bad-garbage")
-        elif r < 0.85:
+        elif r < 0.8:
             self.add("fault", kind="fault")
+        elif r < 0.88:
+            self.add("failsend", kind="failsend")
+            self.op_call()
         else:
             if self.active:
                 s = self.rng.choice(list(self.active.values()))
@@ -485,7 +488,9 @@ def oracle_c12(H, evs, fail):
             done = [r for d in evs for hh, rs in d["C"].items() if hh == h for r in rs]
             gave_up = any(mm.get("kind") == "giveup" and mm.get("h") == h for _, mm in H.ev[:idx])
             died_before = any(d["F"] for d in evs[:idx])
-            if not gave_up and not died_before and idx < len(evs):
+            on_wire = any(isinstance(o, list) and any(isinstance(x, dict) and str(x.get("id")) == str(m["lo"]) for x in o)
+                          for k, o in wire_requests(evs[:idx]))
+            if not gave_up and not died_before and on_wire and idx < len(evs):
                 if not done or not done[0].startswith("batch:"):
                     fail("batch-complete-reply-not-delivered", "batch %d got a complete reply but completed with %s" % (h, done))
                 else:
@@ -543,6 +548,41 @@ def oracle_c05(H, evs, fail):
             key = (um, json.dumps([m["sid"]]))
             if key not in unsub_frames:
                 fail("explicit-unsubscribe-not-sent", "unsubscribe of subscription %d (sid %r) never reached the wire" % (m["sh"], m["sid"]))
+
+
+def quiescent_by_output(H, evs):
+    """the clean-up suffix only brings the client to quiescence if every subscription it ends had actually been
+    handed to the application (its subscribe future had completed) when it was unsubscribed/dropped"""
+    done_at = {}
+    for k, d in enumerate(evs):
+        for h in d["C"]:
+            done_at.setdefault(h, k)
+    for idx, (t, m) in enumerate(H.ev):
+        if m.get("kind") in ("unsub", "drop", "munsub", "mdrop"):
+            sh = m["sh"]
+            if sh not in done_at or done_at[sh] >= idx:
+                return False
+    # a dropped subscription whose unsubscribe never reached the wire (full queue, no later notification) is still
+    # known to the client: the property only speaks of subscriptions whose end was acknowledged
+    unsubs = set()
+    for k, o in wire_requests(evs):
+        if isinstance(o, dict) and isinstance(o.get("method"), str) and o["method"].startswith("unsub"):
+            unsubs.add(json.dumps(o.get("params")))
+    for idx, (t, m) in enumerate(H.ev):
+        if m.get("kind") in ("unsub", "drop") and json.dumps([m["sid"]]) not in unsubs:
+            closed = any(mm.get("what") == "close" and json.dumps(mm.get("sid")) == json.dumps(m["sid"]) for _, mm in H.ev)
+            if not closed:
+                return False
+    # every accepted subscription must have been ended by the application or the server
+    for idx, (t, m) in enumerate(H.ev):
+        if m.get("what") == "sub-ok":
+            h = m["h"]
+            gave_up = any(mm.get("kind") == "giveup" and mm.get("h") == h for _, mm in H.ev[:idx])
+            ended = any(mm.get("kind") in ("unsub", "drop") and mm.get("sh") == h for _, mm in H.ev[idx:]) or \
+                any(mm.get("what") == "close" and mm.get("h") == h for _, mm in H.ev[idx:])
+            if not (gave_up or ended):
+                return False
+    return True
 
 
 def oracle_c18(H, evs, tables, fail):
@@ -647,7 +687,7 @@ def run_histories(ctx, hists, oracles, tag="random"):
         if "c09" in oracles:
             oracle_c09(H, evs, tables, panic, mkfail("c09"))
         if "c18" in oracles:
-            if H.clean:
+            if H.clean and quiescent_by_output(H, evs):
                 ctx.count("c18:quiescent-histories")
                 # acknowledge every unsubscribe that is on the wire but unanswered is part of the clean-up suffix
                 if tables not in ("dead", None) and tables != (0, 0, 0, 0):
